@@ -327,6 +327,8 @@ class FollowPath:
     def or_shapes(shapea: BaseShape, shapeb: BaseShape) -> Tuple[JordanCurve]:
         assert isinstance(shapea, BaseShape)
         assert isinstance(shapeb, BaseShape)
+        # The jordans are splited: work on copies, not on the operands
+        shapea, shapeb = copy(shapea), copy(shapeb)
         for jordana in shapea.jordans:
             for jordanb in shapeb.jordans:
                 FollowPath.split_two_jordans(jordana, jordanb)
@@ -341,6 +343,8 @@ class FollowPath:
     def and_shapes(shapea: BaseShape, shapeb: BaseShape) -> Tuple[JordanCurve]:
         assert isinstance(shapea, BaseShape)
         assert isinstance(shapeb, BaseShape)
+        # The jordans are splited: work on copies, not on the operands
+        shapea, shapeb = copy(shapea), copy(shapeb)
         for jordana in shapea.jordans:
             for jordanb in shapeb.jordans:
                 FollowPath.split_two_jordans(jordana, jordanb)
